@@ -49,6 +49,10 @@ CLAIMS = {
         "text": "EZSP.write_config proved for every protocol version 4..14 and a newer one: the table of settings about to be written (user values exactly, disabled settings absent, untouched defaults with their grow-only marker, capacity settings not supplied by the user grow-only, one entry per setting, packet-buffer count last) is asserted when the write loop is reached; the loop body is proved for an arbitrary table entry and arbitrary NCP answers (read then at most one exact set; a grow-only entry is never written when the NCP's readable value is not smaller; a rejected set is not an exception). Table obligation: every capacity default is grow-only in every version.",
         "note": "BOUNDED DIMENSION (stated, not hidden): user override sets of size <= 2 over the four key categories the code distinguishes (grow-only default, plain default, no default, buffer count), both insertion orders, each value symbolic or None; larger override sets follow from the per-key independence of the merge loop (argued). voluptuous validation assumed to return user entries plus schema defaults. Known finding F8 (v7 schema default for the key table) is listed in known_findings.json.",
     },
+    "C17": {
+        "text": "stack_status_callback (both status families), formNetwork, leaveNetwork, _list_command, add/remove_callback and ControllerApplication._ensure_network_running proved with interference at every await: the listener / collecting callback is registered when the command is issued; normal completion only after the command was accepted and the waiter future got a result; refusal raises without waiting; the event wait is under the operation timeout; on every exit (success, failure, timeout, cancellation) no listener or callback of the operation remains; a status event completes exactly the pending listeners of its status and never raises.",
+        "note": "The collecting callback of _list_command is a closure invoked by other tasks while the operation is suspended; the content / order of the collected results ('every result callback between issue and completion, none from before') is argued from registration-before-issue + removal-on-exit, not mechanised (would need re-entrant callback interference). wait_for_stack_status is verified inlined in its users. F9 found here and fixed.",
+    },
     "C18": {
         "text": "Every obligation generated from the current source of sl_Status.from_ember_status (with the live SL_STATUS_MAP as data) is discharged by z3 for all values of each status family, no bound.",
         "note": "Trusts the PyVC value model (enum identity/equality, dict lookup by (type, value) key) and z3; logging calls are dropped; decorators other than classmethod make the function outside reach.",
